@@ -22,7 +22,8 @@ CANON = {'quote': 'bare', 'kwcase': 'title', 'string': 'single', 'settings_order
 FAULTS = ["illegal_char_line", "stray_identifier_line", "stray_comma_line", "delete_close_brace", "duplicate_close_brace",
           "delete_open_brace", "unterminated_string", "column_without_type", "unknown_setting", "unknown_index_type",
           "bad_ref_operator", "bad_action", "bad_colour", "text_after_close_brace", "delete_open_bracket", "delete_close_bracket",
-          "duplicate_open_bracket", "duplicate_close_bracket"]
+          "duplicate_open_bracket", "duplicate_close_bracket",
+          "empty_settings", "trailing_comma_in_settings", "missing_comma_in_settings", "missing_value", "ref_without_column", "keyword_typo"]
 _HEADS = [('Table ', 'table_head', 'table'), ('Enum ', 'enum_head', 'enum'), ('TableGroup ', 'group_head', 'group'),
           ('Project ', 'project_head', 'project'), ('Ref', 'ref_head', 'ref'), ('indexes', 'indexes_head', 'indexes'),
           ('Note ', 'sticky_head', 'note'), ('Note {', 'note_head', 'note')]
@@ -89,6 +90,12 @@ def label(lines: List[str]) -> List[Dict[str, Any]]:
                 feats.append('settings')
             if bare.count('[') + bare.count(']') > 0:
                 feats.append('brackets_outside_literals')
+            m = re.search(r'\[([^\[\]]*)\]\s*(//.*)?$', bare)
+            if m and 'settings' in feats:
+                if ',' in m.group(1):
+                    feats.append('two_settings')
+                if re.search(r'\b(note|default|name|type|update|delete|headercolor|color|ref):', m.group(1), re.I):
+                    feats.append('keyed_setting')
             if re.search(r'\btype: \w+', code):
                 feats.append('index_type')
             if re.search(r'\b(update|delete): ', code):
@@ -142,6 +149,43 @@ def apply_fault(lines: List[str], i: int, fault: str, variant: int) -> List[str]
     elif fault == 'delete_close_bracket':
         k = mask(ln).rindex(']')
         new[i] = ln[:k] + ln[k + 1:]
+    elif fault in ('empty_settings', 'trailing_comma_in_settings', 'missing_comma_in_settings', 'missing_value'):
+        mk = mask(ln)
+        m = re.search(r'\[([^\[\]]*)\]\s*(//.*)?$', mk)
+        a, b = m.start(1), m.end(1)              # the inside of the LAST bracket pair of the line: the settings list
+        if fault == 'empty_settings':
+            new[i] = ln[:a] + ['', ' ', ' , '][variant % 3] + ln[b:]
+        elif fault == 'trailing_comma_in_settings':
+            new[i] = ln[:b] + [',', ' ,', ', ,'][variant % 3] + ln[b:]
+        elif fault == 'missing_comma_in_settings':
+            ks = [a + j for j, ch in enumerate(mk[a:b]) if ch == ',']
+            k = ks[variant % len(ks)]
+            new[i] = ln[:k] + ' ' + ln[k + 1:]
+        else:
+            km = list(re.finditer(r'\b(note|default|name|type|update|delete|headercolor|color|ref):', mk[a:b], re.I))
+            k = km[variant % len(km)]
+            # drop the value: everything up to the next comma of the list (or its end)
+            rest = mk[a + k.end():b]
+            end = a + k.end() + (rest.index(',') if ',' in rest else len(rest))
+            new[i] = ln[:a + k.end()] + ' ' + ln[end:]
+    elif fault == 'ref_without_column':
+        # the last `.column` of one side goes: `a.b > c` / `a > c.d`
+        mk = mask(ln)
+        sides = list(re.finditer(r'((?:"x*"|\w+)(?:\.(?:"x*"|\w+))*)\.(?:"x*"|\w+|\([^()]*\))', mk))
+        s = sides[variant % len(sides)]
+        parts = s.group(1)
+        if '.' in parts and variant % 2 == 0:      # schema.table.col -> keep schema.table?  no: that still names table.column; drop to one name
+            parts = parts.split('.')[0] if not parts.startswith('"') else parts[:parts.index('"', 1) + 1]
+            new[i] = ln[:s.start()] + ln[s.start():s.start() + len(parts)] + ln[s.end():]
+        else:
+            new[i] = ln[:s.start()] + ln[s.start():s.start() + len(s.group(1))].split('.')[0] + ln[s.end():] if '.' not in s.group(1) else ln[:s.start()] + ln[s.start():s.start() + len(parts)].split('.')[0] + ln[s.end():]
+    elif fault == 'keyword_typo':
+        m = re.match(r'(\s*)(Table|Enum|TableGroup|Project|Ref|Note|indexes)\b', ln, re.I)
+        w = m.group(2)
+        # last two letters swapped, first letter lost, first two swapped: the keyword is no longer a PREFIX of the word (the
+        # grammar reads `Reff:` as `Ref f:` -- keyword and name may be glued -- so a typo that keeps the prefix proves nothing)
+        typo = [w[:-2] + w[-1] + w[-2], w[1:], w[1] + w[0] + w[2:]][variant % 3]
+        new[i] = m.group(1) + typo + ln[m.end():]
     elif fault == 'duplicate_open_bracket':
         # every opening bracket of the line in turn (settings list, array suffix of a type), glued or spaced
         ks = [m.start() for m in re.finditer(r'\[', mask(ln))]
@@ -176,7 +220,7 @@ def _exec_chunk(items):
 
 
 def main(argv: List[str]) -> int:
-    rep = core.Report('C07', 'Malformed.tla: 18 fault kinds applied at every line of TLC-generated documents printed canonically; the outcome '
+    rep = core.Report('C07', 'Malformed.tla: 24 fault kinds applied at every line of TLC-generated documents printed canonically; the outcome '
                              'of the parse call validated by TLC for every (fault, site) pair that ProvablyInvalid lists')
     rep.rule = ('case = (document seed, line, fault kind, variant); only pairs listed by Malformed!ProvablyInvalid are judged; every '
                 'judged case is non-trivial (exactly one fault)')
@@ -195,10 +239,10 @@ def main(argv: List[str]) -> int:
             for fault in FAULTS:
                 if i >= len(lines) and fault not in ('illegal_char_line', 'stray_identifier_line', 'stray_comma_line'):
                     continue
-                for variant in range(8 if fault == 'bad_action' else 4 if fault in ('duplicate_open_bracket', 'duplicate_close_bracket') else 3 if fault in ('illegal_char_line', 'bad_colour', 'bad_ref_operator', 'text_after_close_brace', 'unknown_setting') else 1):
+                for variant in range(8 if fault == 'bad_action' else 3 if fault in ('empty_settings', 'trailing_comma_in_settings', 'missing_comma_in_settings', 'missing_value', 'ref_without_column', 'keyword_typo') else 4 if fault in ('duplicate_open_bracket', 'duplicate_close_bracket') else 3 if fault in ('illegal_char_line', 'bad_colour', 'bad_ref_operator', 'text_after_close_brace', 'unknown_setting') else 1):
                     try:
                         new = apply_fault(lines + ([''] if i >= len(lines) else []), i, fault, variant + (seed if fault != 'unknown_setting' else 0))
-                    except (ValueError, AttributeError, ZeroDivisionError):
+                    except (ValueError, AttributeError, ZeroDivisionError, IndexError):
                         continue            # the line has nothing this fault could be applied to
                     if new == lines:
                         continue
